@@ -1,4 +1,100 @@
 import PeptVerif.Model.Proto
-/-! driver for C13 (placeholder: replies bad-op to everything until the model is written) -/
-def step (_line : String) : String := "bad-op"
-def main : IO Unit := Proto.runDriver step
+import PeptVerif.Model.Annotation
+import PeptVerif.Model.ModBuilder
+import PeptVerif.Spec.ModBuilder
+/-!
+driver for C13.
+
+    static        annot mode internal nterm cterm emptysites          -> dump
+    variable      annot mode maxmods internal nterm cterm emptysites  -> dumps joined by ' '
+    variable_old  (same; the code before the repair)
+    spec          (same as variable)                                  -> the specification's enumeration
+    rec           annot mode maxcount modmap                          -> dumps (direct call of _apply_variable_mods_rec)
+
+rules:  N | D<sites>~<value>;…      value(static): O<mod> | M<mod>&…     value(variable): O<mod> | F<mod>&… | G<value>!…
+term:   N | D… | X<value>           modmap: <site>~<mods>!<mods>;…
+-/
+open Proto Pept Pept.Wire Pept.ModBuilder
+
+def parseMode? (s : String) : Option Mode :=
+  if s == "skip" then some .skip else if s == "append" then some .append
+  else if s == "overwrite" then some .overwrite else none
+
+def parseModsIn? (s : String) : Option ModsIn :=
+  match s.toList with
+  | 'O' :: r => (parseMod? (String.ofList r)).map .one
+  | 'M' :: r => (parseModsWith? "&" (String.ofList r)).map .many
+  | _ => none
+
+def parseVarIn? (s : String) : Option VarIn :=
+  match s.toList with
+  | 'O' :: r => (parseMod? (String.ofList r)).map .one
+  | 'F' :: r => (parseModsWith? "&" (String.ofList r)).map .flat
+  | 'G' :: r =>
+    let body := String.ofList r
+    if body.isEmpty then some (.nested []) else ((body.splitOn "!").mapM parseModsIn?).map .nested
+  | _ => none
+
+def parseRule? {α : Type} (pv : String → Option α) (s : String) : Option (Rule α) :=
+  match s.splitOn "~" with
+  | [sites, v] => do
+    let sites ← parseIntList? sites
+    let v ← pv v
+    pure (sites, v)
+  | _ => none
+
+def parseRules? {α : Type} (pv : String → Option α) (s : String) : Option (Option (List (Rule α))) :=
+  match s.toList with
+  | ['N'] => some none
+  | 'D' :: r =>
+    let body := String.ofList r
+    if body.isEmpty then some (some []) else ((body.splitOn ";").mapM (parseRule? pv)).map some
+  | _ => none
+
+def parseTerm? {α : Type} (pv : String → Option α) (s : String) : Option (TermIn α) :=
+  match s.toList with
+  | ['N'] => some .none
+  | 'X' :: r => (pv (String.ofList r)).map .direct
+  | 'D' :: _ => do
+    let r ← parseRules? pv s
+    match r with
+    | some rules => pure (.dict rules)
+    | none => none
+  | _ => none
+
+def parseModMap? (s : String) : Option ModMap :=
+  if s.isEmpty then some [] else
+  (s.splitOn ";").mapM fun (e : String) =>
+    match e.splitOn "~" with
+    | [k, gs] => do
+      let k ← k.toInt?
+      let gs ← (gs.splitOn "!").mapM (parseModsWith? "&")
+      pure (k, gs)
+    | _ => none
+
+def showAnnots (l : List Annotation) : String := " ".intercalate (l.map showAnnotation)
+
+def step (line : String) : String :=
+  match splitTab line with
+  | ["static", a, mode, internal, nterm, cterm, es] =>
+    match parseAnnotation? a, parseMode? mode, parseRules? parseModsIn? internal, parseTerm? parseModsIn? nterm,
+        parseTerm? parseModsIn? cterm, parseIntList? es with
+    | some a, some mode, some internal, some nterm, some cterm, some es =>
+      showAnnotation (applyStatic a internal nterm cterm mode es)
+    | _, _, _, _, _, _ => "bad-op"
+  | [op, a, mode, mx, internal, nterm, cterm, es] =>
+    match parseAnnotation? a, parseMode? mode, parseInt? mx, parseRules? parseVarIn? internal,
+        parseTerm? parseVarIn? nterm, parseTerm? parseVarIn? cterm, parseIntList? es with
+    | some a, some mode, some mx, some internal, some nterm, some cterm, some es =>
+      if op == "variable" then showAnnots (applyVariable a internal mx nterm cterm mode es)
+      else if op == "variable_old" then showAnnots (applyVariableOld a internal mx nterm cterm mode es)
+      else if op == "spec" then showAnnots (specVariable a internal mx nterm cterm mode es)
+      else "bad-op"
+    | _, _, _, _, _, _, _ => "bad-op"
+  | ["rec", a, mode, mc, mm] =>
+    match parseAnnotation? a, parseMode? mode, parseInt? mc, parseModMap? mm with
+    | some a, some mode, some mc, some mm => showAnnots (varRec mm mode mc a.seq.length 0 a)
+    | _, _, _, _ => "bad-op"
+  | _ => "bad-op"
+
+def main : IO Unit := runDriver step
